@@ -794,4 +794,137 @@ theorem inv_init : Inv (fun _ => False) SWorld.init VM.init := by
   refine ⟨⟨rfl, rfl, fun a => ⟨fun t ht => by simp [VM.init, PState.empty] at ht, fun m l hl => by simp [VM.init, PState.empty] at hl⟩⟩,
     fun _ => rfl, fun _ => rfl, fun a ht => by simp [VM.init, PState.empty] at ht, fun a _ k => rfl⟩
 
+/-! ### the spec's observation log only grows; a failed call restores the world -/
+
+/-- put `p` in front of the observation log of a result (`RETURN` data of SELFDESTRUCT is empty) -/
+def SRes.pre (p : List Nat) : SRes → SRes
+  | .cont w l => .cont w (p ++ l)
+  | .stop (.revert l) w => .stop (.revert (p ++ l)) w
+  | .stop (.ret l) w => .stop (.ret l) w
+  | .stop .fail w => .stop .fail w
+
+theorem specResume_pre (p : List Nat) (w : SWorld) (log : List Nat) (r : Outcome × SWorld) :
+    specResume w (p ++ log) r = (specResume w log r).pre p := by
+  obtain ⟨o, w'⟩ := r
+  cases o <;> simp [specResume, SRes.pre, List.append_assoc]
+
+mutual
+theorem specOps_pre (p : List Nat) : ∀ (ops : List Op) (ctx : Ctx) (w : SWorld) (log : List Nat),
+    specOps ctx w (p ++ log) ops = (specOps ctx w log ops).pre p
+  | [], ctx, w, log => by simp [specOps, SRes.pre]
+  | op :: rest, ctx, w, log => by
+    simp only [specOps]
+    rw [specOp_pre p op ctx w log]
+    cases h : specOp ctx w log op with
+    | cont w' l' => simp only [SRes.pre]; exact specOps_pre p rest ctx w' l'
+    | stop o w' => cases o <;> simp [SRes.pre]
+theorem specOp_pre (p : List Nat) : ∀ (op : Op) (ctx : Ctx) (w : SWorld) (log : List Nat),
+    specOp ctx w (p ++ log) op = (specOp ctx w log op).pre p
+  | .sstore k v, ctx, w, log => by simp only [specOp]; split <;> simp [SRes.pre]
+  | .tstore k v, ctx, w, log => by simp only [specOp]; split <;> simp [SRes.pre]
+  | .sload k, ctx, w, log => by simp [specOp, SRes.pre, List.append_assoc]
+  | .tload k, ctx, w, log => by simp [specOp, SRes.pre, List.append_assoc]
+  | .env i, ctx, w, log => by simp [specOp, SRes.pre, List.append_assoc]
+  | .revert, ctx, w, log => by simp [specOp, SRes.pre]
+  | .log t, ctx, w, log => by simp only [specOp]; split <;> simp [SRes.pre]
+  | .selfdestruct b, ctx, w, log => by simp only [specOp]; split <;> simp [SRes.pre]
+  | .call kind t value body, ctx, w, log => by
+    simp only [specOp]
+    split
+    · simp [SRes.pre]
+    · split
+      · split
+        · simp [SRes.pre, List.append_assoc]
+        · exact specResume_pre p w log _
+      · split
+        · simp [SRes.pre, List.append_assoc]
+        · split
+          · simp [SRes.pre, List.append_assoc]
+          · exact specResume_pre p w log _
+end
+
+/-- journaled state: a sub-call that reports flag 0 (reverted, failed, or could not be paid for)
+    leaves the world exactly as it was -/
+theorem spec_failed_call_restores (ctx : Ctx) (w w' : SWorld) (kind : Kind) (t value : Nat)
+    (body : List Op) (l : List Nat)
+    (h : specOp ctx w [] (.call kind t value body) = .cont w' (0 :: l)) : w' = w := by
+  simp only [specOp] at h
+  have hres : ∀ r, specResume w [] r = .cont w' (0 :: l) → w' = w := by
+    intro r hr
+    obtain ⟨o, w''⟩ := r
+    cases o <;> simp [specResume] at hr
+    · exact hr.1.symm
+    · exact hr.1.symm
+  split at h
+  · cases h
+  · split at h
+    · split at h
+      · simp at h
+      · exact hres _ h
+    · split at h
+      · simp at h; exact h.1.symm
+      · split at h
+        · simp at h
+        · exact hres _ h
+
+/-- a CALL instruction never ends the calling activation with a return -/
+theorem specOp_call_stop (ctx : Ctx) (w w' : SWorld) (log : List Nat) (kind : Kind) (t value : Nat)
+    (body : List Op) (o : Outcome) (h : specOp ctx w log (.call kind t value body) = .stop o w') :
+    o = .fail := by
+  simp only [specOp] at h
+  have hres : ∀ r, specResume w log r = .stop o w' → o = .fail := by
+    intro r hr
+    obtain ⟨o', w''⟩ := r
+    cases o' <;> simp [specResume] at hr
+  split at h
+  · cases h; rfl
+  · split at h
+    · split at h
+      · cases h
+      · exact hres _ h
+    · split at h
+      · cases h
+      · split at h
+        · cases h
+        · exact hres _ h
+
+/-- top-level form: if the message consisting of just the call reports flag 0 with data `l`, then
+    putting that call in front of any script `rest` changes nothing but the observation log
+    (prefix `0 :: l`, where a log is returned at all) -/
+theorem spec_msg_failed_call (w : SWorld) (life : Life) (A value : Nat) (kind : Kind) (t val : Nat)
+    (body rest : List Op) (l : List Nat)
+    (hfail : (specMsg w (Msg.mk life A value [.call kind t val body])).1 = (1, 0 :: l)) :
+    ((specMsg w (Msg.mk life A value (.call kind t val body :: rest))).1 = (specMsg w (Msg.mk life A value rest)).1 ∨
+     (specMsg w (Msg.mk life A value (.call kind t val body :: rest))).1 =
+       ((specMsg w (Msg.mk life A value rest)).1.1, 0 :: l ++ (specMsg w (Msg.mk life A value rest)).1.2)) ∧
+    (specMsg w (Msg.mk life A value (.call kind t val body :: rest))).2 = (specMsg w (Msg.mk life A value rest)).2 := by
+  unfold specMsg at hfail ⊢
+  simp only [topCtx] at hfail ⊢
+  by_cases hd : w.dead A = true
+  · simp [hd] at hfail
+  · simp only [hd, Bool.false_eq_true, if_false] at hfail ⊢
+    generalize hw0 : ({ w with trans := fun _ _ => 0, bal := credit w.bal A value } : SWorld) = w0 at hfail ⊢
+    generalize hctx : ({ self := A, caller := extCaller, value := value, readonly := false } : Ctx) = ctx at hfail ⊢
+    simp only [specOps] at hfail ⊢
+    cases hs : specOp ctx w0 [] (.call kind t val body) with
+    | stop o w' =>
+      have := specOp_call_stop _ _ _ _ _ _ _ _ _ hs
+      subst this
+      rw [hs] at hfail
+      simp [SRes.finish] at hfail
+    | cont w' l' =>
+      rw [hs] at hfail
+      simp only [SRes.finish] at hfail
+      have hl : l' = 0 :: l := by simpa using hfail
+      subst hl
+      have hw : w' = w0 := spec_failed_call_restores _ _ _ _ _ _ _ _ hs
+      subst hw
+      simp only []
+      have hp := specOps_pre (0 :: l) rest ctx w' []
+      simp only [List.append_nil] at hp
+      rw [hp]
+      cases hr : specOps ctx w' [] rest with
+      | cont w'' lg => simp [SRes.pre, SRes.finish]
+      | stop o w'' => cases o <;> simp [SRes.pre, SRes.finish]
+
 end BA.Evm.Storage
